@@ -130,6 +130,15 @@ def install_group(I, log):
     I.add_intercept(r"(?:void )?" + PROJ + r"::add(?:<.*>)?\(.*\)", h_add, "add")
     I.add_intercept(B + r"G1::endomorphism\(.*\)", un(lambda e: e * LAMBDA), "endomorphism")
 
+    def h_is_zero(I_, name, args, site):
+        """[e]P is the identity exactly when r | e (P is a point of order r: the formal base point is not the identity)"""
+        d = I_.prog.demangled[name]
+        e = rd(args[0], 288 if "Fq2" in d or "G2" in d.split("(")[0] else 144)
+        if isinstance(e, int):
+            return int(e % R_ORDER == 0)
+        return I_.branch(e % R_ORDER == 0) and 1 or 0
+    I.add_intercept(PROJ + r"::is_zero\(\) const", h_is_zero, "is_zero")
+
     def h_frob(I_, name, args, site):
         if not is_conc(args[2]) or args[2] != 1:
             raise ExecError("unsupported", "G2::frobenius_map with power %r" % (args[2],))
@@ -564,7 +573,13 @@ def ob_frobenius_loop(first_case=None, alias=False):
     for path, (kind, regs) in I.explore(once, 1 << 14):
         npaths += 1
         if "entry" not in state:
-            raise Inconclusive("multiply_frobenius returned without reaching its loop")
+            # the base is [1]P (not the identity) and the four digit strings are arbitrary: the 65-step loop cannot be skipped
+            try:
+                got = I.g_rd(Ptr(state["res"], 0), 288)
+            except ExecError:
+                got = "unwritten"
+            raise Violation("frobenius-loop:skipped", "G2::multiply_frobenius returns without running its loop for a base that is not the identity%s (result: %s)"
+                            % (" when the result object is the base object" if alias else "", got if isinstance(got, str) else "[%s]P" % got), {"alias": alias})
         kinds.add(kind)
         if len(arrays) != 4 or [a_[4].off for a_ in arrays] != [0, 16, 32, 48] or any(a_[4].obj.name != "scalar" for a_ in arrays):
             raise Violation("frobenius:recoding", "multiply_frobenius does not recode the four digits of the scalar in order", {})
